@@ -199,6 +199,8 @@ for _combo in range(5):
             for _pn, _tiers in ((3, ("quick", "thorough")), (5, ("thorough",))):
                 if _pn == 5 and _ns == 0:
                     continue
+                if _pn == 5 and _ns == 2 and _combo in (1, 2):
+                    _tiers = ("quick", "thorough")      # a qualified step followed by another step, quoted qualifiers: need 5 bytes
                 U("%s_path_c%dk%dn%d" % (_kind, _combo, _ns, _pn), entry=_entry, func=_fn,
                   defs={"quick": ["-DPATHN=%d" % _pn, "-DNSEC=%d" % _ns, "-DTREE_COMBO=%d" % _combo, "-DCFGV_FIXED_DUP=8"]}, cbmc=unw(_pn + 2) + NOOOM + LEAK, tiers=_tiers, timeout=1800,
                   label="bounded(path <= %d bytes over all bytes; tree root{a, s{b}}: %s with %d instance(s), titles 1 byte; no allocation failure; fixed-size string copies)" % (_pn, COMBOTXT[_combo], _ns),
